@@ -1129,6 +1129,10 @@ VmTrap vm_core_execute(VmState *vm) {
                 vm_release(&vm->heap, arr);
                 return trap_error(vm, VM_ERR_TYPE_ERROR, "ARR_POP: not an array");
             }
+            if (arr.as.array->length == 0) {
+                vm_release(&vm->heap, arr);
+                return trap_error(vm, VM_ERR_OUT_OF_BOUNDS, "ARR_POP: array is empty");
+            }
             NanoValue v = vm_array_pop(arr.as.array);
             stack_push(vm, v);
             stack_push(vm, arr);
@@ -1142,7 +1146,16 @@ VmTrap vm_core_execute(VmState *vm) {
                 vm_release(&vm->heap, arr);
                 return trap_error(vm, VM_ERR_TYPE_ERROR, "ARR_GET: not an array");
             }
-            uint32_t idx = (uint32_t)(idx_v.tag == TAG_INT ? idx_v.as.i64 : 0);
+            /* Always bounds-checked: the whole 64-bit index must be in [0, length) */
+            if (idx_v.tag != TAG_INT || idx_v.as.i64 < 0 ||
+                idx_v.as.i64 >= (int64_t)arr.as.array->length) {
+                int64_t bad = idx_v.tag == TAG_INT ? idx_v.as.i64 : -1;
+                uint32_t len = arr.as.array->length;
+                vm_release(&vm->heap, arr);
+                return trap_error(vm, VM_ERR_OUT_OF_BOUNDS,
+                                  "Array index %lld out of bounds [0..%u)", (long long)bad, len);
+            }
+            uint32_t idx = (uint32_t)idx_v.as.i64;
             NanoValue v = vm_array_get(arr.as.array, idx);
             vm_retain(v);
             vm_release(&vm->heap, arr);
@@ -1159,7 +1172,16 @@ VmTrap vm_core_execute(VmState *vm) {
                 vm_release(&vm->heap, v);
                 return trap_error(vm, VM_ERR_TYPE_ERROR, "ARR_SET: not an array");
             }
-            uint32_t idx = (uint32_t)(idx_v.tag == TAG_INT ? idx_v.as.i64 : 0);
+            if (idx_v.tag != TAG_INT || idx_v.as.i64 < 0 ||
+                idx_v.as.i64 >= (int64_t)arr.as.array->length) {
+                int64_t bad = idx_v.tag == TAG_INT ? idx_v.as.i64 : -1;
+                uint32_t len = arr.as.array->length;
+                vm_release(&vm->heap, arr);
+                vm_release(&vm->heap, v);
+                return trap_error(vm, VM_ERR_OUT_OF_BOUNDS,
+                                  "Array index %lld out of bounds [0..%u)", (long long)bad, len);
+            }
+            uint32_t idx = (uint32_t)idx_v.as.i64;
             vm_release(&vm->heap, vm_array_get(arr.as.array, idx));
             vm_array_set(arr.as.array, idx, v);
             stack_push(vm, arr);
